@@ -524,32 +524,48 @@ func ruleUploadReadFailureIs5xx(c *Ctx, p *Prog, rule string) {
 	n := 0
 	bad := ""
 	for _, f := range WithClosures(fn) {
-		for _, call := range Calls(f, "net/http.Error") {
-			a := CallOf(call).Args
-			if len(a) < 3 {
+		for _, b := range f.Blocks {
+			ifi := BlockIf(b)
+			if ifi == nil {
 				continue
 			}
-			fromCopy := false
-			for _, g := range GuardingIfs(call) {
-				v, nonNil, ok := ErrNilTest(g.If)
-				if !ok || g.Succ != nonNil {
-					continue
-				}
-				if CallResult(v, 1, "io.Copy", "io.CopyBuffer", "io.ReadAll", "io/ioutil.ReadAll", "io.CopyN") != nil {
-					fromCopy = true
-				}
-			}
-			if !fromCopy {
+			v, nonNil, ok := ErrNilTest(ifi)
+			if !ok || CallResult(v, 1, "io.Copy", "io.CopyBuffer", "io.ReadAll", "io/ioutil.ReadAll", "io.CopyN") == nil {
 				continue
 			}
 			n++
-			code, ok := ConstInt(a[2])
-			if !ok || code < 500 || code > 599 {
-				bad = fmt.Sprintf("a failure while reading the uploaded body is answered %s at %s", Desc(a[2]), p.Pos(call.Pos()))
+			errBlk := b.Succs[nonNil]
+			for _, bb := range f.Blocks {
+				if !(bb == errBlk || errBlk.Dominates(bb)) || len(errBlk.Preds) != 1 {
+					continue
+				}
+				for _, in := range bb.Instrs {
+					cc := CallOf(in)
+					if cc == nil {
+						continue
+					}
+					var st ssa.Value
+					switch CalleeName(cc) {
+					case "net/http.Error":
+						if len(cc.Args) >= 3 {
+							st = cc.Args[2]
+						}
+					case "(net/http.ResponseWriter).WriteHeader":
+						if len(cc.Args) >= 1 {
+							st = cc.Args[len(cc.Args)-1]
+						}
+					}
+					if st == nil {
+						continue
+					}
+					if code, isC := ConstInt(st); isC && (code < 500 || code > 599) {
+						bad = fmt.Sprintf("a failure while reading the uploaded body is answered %d at %s", code, p.Pos(in.Pos()))
+					}
+				}
 			}
 		}
 	}
-	c.Check(rule, "post:cut-short-upload-is-answered-5xx", p, fn.Pos(), bad == "" && n > 0, fmt.Sprintf("the reply to an upload whose body could not be read to its end is a 5xx (%d site(s))", n), bad+": agents (of this and of every earlier build) retry an upload on 5xx only and take any other status as the acknowledgement — a response that arrived cut short is then acknowledged and never replayed")
+	c.Check(rule, "post:cut-short-upload-is-answered-5xx", p, fn.Pos(), bad == "", fmt.Sprintf("no reply with a status outside 5xx is written where the copy of the uploaded body has failed (%d test(s) of that error in the handler; a reply written by a shared error helper is not followed)", n), bad+": agents (of this and of every earlier build) retry an upload on 5xx only and take any other status as the acknowledgement — a response that arrived cut short is then acknowledged and never replayed")
 }
 
 // ruleProxyTimeoutAlwaysApplied: the HTTP client the agent talks to the proxy with gets
@@ -1080,4 +1096,126 @@ func slicedFrom(v, src ssa.Value) bool {
 		v = sl.X
 	}
 	return false
+}
+
+// ---------------------------------------------------------------- bridge lifetime
+
+// ruleNoDeadlineClosesBridge: nothing with a deadline ends a bridged connection. The bridge
+// carries streams of any length; the only events that close the pair are the two copy
+// directions. A clean-up hook (context.AfterFunc, time.AfterFunc) that closes connections
+// must not hang on a context made with WithTimeout/WithDeadline — r.Context() counts as that
+// context once r was re-bound with r.WithContext(ctx).
+func ruleNoDeadlineClosesBridge(c *Ctx, p *Prog, rule string) {
+	bad := ""
+	n := 0
+	for _, rel := range []string{"utils/tcpbridge/connection", "utils/tcpbridge/tcp-bridge-frontend", "utils/tcpbridge/tcp-bridge-backend"} {
+		for _, fn := range p.AllFuncsIn(rel) {
+			n++
+			for _, call := range Calls(fn, "context.AfterFunc") {
+				a := CallOf(call).Args
+				if len(a) < 2 {
+					continue
+				}
+				deadline := ""
+				SliceBack(a[0], func(v ssa.Value) bool {
+					if cl, ok := v.(*ssa.Call); ok {
+						switch CalleeName(&cl.Call) {
+						case "context.WithTimeout", "context.WithDeadline", "context.WithTimeoutCause", "context.WithDeadlineCause":
+							deadline = CalleeName(&cl.Call) + " at " + p.Pos(cl.Pos())
+						}
+					}
+					return deadline == ""
+				})
+				if deadline != "" {
+					bad = "the hook registered at " + p.Pos(call.Pos()) + " in " + FuncName(fn) + " fires when the context of " + deadline + " expires"
+				}
+			}
+			for _, call := range Calls(fn, "time.AfterFunc") {
+				a := CallOf(call).Args
+				if len(a) < 2 {
+					continue
+				}
+				closes := false
+				for _, r := range Roots(a[1]) {
+					var cb *ssa.Function
+					switch x := r.(type) {
+					case *ssa.MakeClosure:
+						cb, _ = x.Fn.(*ssa.Function)
+					case *ssa.Function:
+						cb = x
+					}
+					if cb == nil {
+						closes = true // a callback this rule cannot read
+						continue
+					}
+					for _, f := range WithClosures(cb) {
+						EachInstrRaw(f, func(i ssa.Instruction) {
+							if cc := CallOf(i); cc != nil && (strings.HasSuffix(CalleeName(cc), ".Close") || strings.HasSuffix(CalleeName(cc), "closeBoth")) {
+								closes = true
+							}
+							if cc := CallOf(i); cc != nil && cc.StaticCallee() == nil && !cc.IsInvoke() {
+								closes = true // calls a function value (closeBoth)
+							}
+						})
+					}
+				}
+				if closes {
+					bad = "the timer started at " + p.Pos(call.Pos()) + " in " + FuncName(fn) + " closes connections when it fires"
+				}
+			}
+		}
+	}
+	c.Check(rule, "bridge:no-deadline-closes-the-pair", p, 0, bad == "" && n > 0, fmt.Sprintf("no timer or deadline-bound clean-up hook closes a bridged connection (%d functions of the bridge inspected)", n), bad+": a bridged connection that is still in use then is cut in both directions with bytes in flight — streams longer than the deadline do not arrive complete")
+}
+
+// ruleReaderEndsOnEveryReadError: the goroutine that reads the backend websocket ends on
+// every error of ReadMessage/NextReader. gorilla's read errors are permanent (the connection
+// remembers them) and the 1000th read of a failed connection panics — in a goroutine nothing
+// recovers, that ends the agent.
+func ruleReaderEndsOnEveryReadError(c *Ctx, p *Prog, rule string) {
+	nc := c.need(p, rule, "agent/websockets.NewConnection")
+	if nc == nil {
+		return
+	}
+	n := 0
+	for _, fn := range WithClosures(nc) {
+		for _, call := range Calls(fn, "(*github.com/gorilla/websocket.Conn).ReadMessage", "(*github.com/gorilla/websocket.Conn).NextReader") {
+			if !InLoop(call.Block()) {
+				continue
+			}
+			n++
+			bad := ""
+			cv := call.(ssa.Value)
+			var errV ssa.Value
+			for _, r := range Refs(cv) {
+				if ex, ok := r.(*ssa.Extract); ok && ex.Index == cv.Type().(*types.Tuple).Len()-1 {
+					errV = ex
+				}
+			}
+			if errV == nil {
+				bad = "the error of the read is not looked at"
+			} else {
+				// reach the read again without ever taking the "error is nil" edge of a test of this error
+				onlyErrEdges := func(b *ssa.BasicBlock, idx int) bool {
+					ifi := BlockIf(b)
+					if ifi == nil {
+						return true
+					}
+					v, nonNil, okT := ErrNilTest(ifi)
+					if !okT || v != errV {
+						return true
+					}
+					return idx == nonNil
+				}
+				hit, _ := (&Walk{Target: func(i ssa.Instruction) bool { return i == call }, Edge: onlyErrEdges}).FromInstr(call)
+				if hit != nil {
+					bad = "the loop can come back to the read at " + p.Pos(call.Pos()) + " without the previous read having succeeded"
+				}
+			}
+			c.Check(rule, "reader:every-read-error-ends-the-reader", p, call.Pos(), bad == "", "no path from a failed read of the backend websocket leads back to the read", bad+": gorilla keeps returning the same error and panics on the 1000th read of a failed connection (\"repeated read on failed websocket connection\") — in a goroutine nothing recovers, which terminates the agent for every session")
+		}
+	}
+	if n == 0 {
+		c.Unk(rule, "reader:every-read-error-ends-the-reader", p, nc.Pos(), "no read of the backend websocket inside a loop found in NewConnection")
+	}
 }
